@@ -170,6 +170,10 @@ func apply[S ~[]E, E selectable](list S, submissionRequirement SubmissionRequire
 	if submissionRequirement.Min != nil && selectableCount < *submissionRequirement.Min {
 		return nil, errors.Join(ErrNoCredentials, fmt.Errorf("submission requirement (%s) has less matches (%d) than minimal required (%d)", submissionRequirement.Name, selectableCount, *submissionRequirement.Min))
 	}
+	// min and max contradict each other: no selection can fulfill both
+	if submissionRequirement.Min != nil && submissionRequirement.Max != nil && *submissionRequirement.Min > *submissionRequirement.Max {
+		return nil, errors.Join(ErrNoCredentials, fmt.Errorf("submission requirement (%s) requires a minimum (%d) greater than its maximum (%d)", submissionRequirement.Name, *submissionRequirement.Min, *submissionRequirement.Max))
+	}
 	// take max if both min and max are set
 	index := 0
 	for _, member := range list {
